@@ -705,6 +705,19 @@ def judge_vv(ctx, c, rep):
             break
     if c['imag_auto']:
         ctx.tag('vv-auto-with-imag(part-outside-property)')
+    # a dead input (zero or negative autocorrelation) stays without power after the correction, so that its products
+    # still get the tiny substitute weight ("where an autocorrelation is zero or not finite")
+    if not res and autos:
+        dead = np.zeros((3, 1, B), np.complex64)
+        dead[1, 0, autos] = -2.0
+        dead[2, 0, autos] = 5.0
+        with dask.config.set(scheduler='synchronous'):
+            o2 = correct_autocorr_quantisation(da.from_array(dead, chunks=((3,), (1,), (B,))), np.array(cps)).compute()
+        k0 = autos[0]
+        if o2[0, 0, k0].real != 0.0 or o2[1, 0, k0].real > 0.0 or not o2[2, 0, k0].real > 0.0:
+            res.append((f'Van Vleck correction of a zero / negative autocorrelation gives {o2[0, 0, k0].real!r} / '
+                        f'{o2[1, 0, k0].real!r}: a dead input acquires power and loses the substitute weight', c))
+        ctx.tag('vv-dead-input')
     ctx.tag('vv')
     return res, True
 
@@ -978,21 +991,28 @@ def try_h5synth(ctx):
         ctx.tag('v3-h5synth-absent')
         return []
     import h5py
+    out = []
+    for hw, hwc in ((True, True), (True, False), (False, True), (False, False)):
+        out += _try_h5synth_one(ctx, h5synth, h5py, hw, hwc)
+    return out
+
+
+def _try_h5synth_one(ctx, h5synth, h5py, hw, hwc):
+    """one v3 file with the stored weights and / or the per-channel weights present"""
     tmp = tempfile.mkdtemp(prefix='c15_v3_')
     try:
         path = os.path.join(tmp, 'v3.h5')
         try:
-            syn = h5synth.make_v3(path, ctx.rng)
+            syn = h5synth.make_v3(path, ctx.rng, with_weights=hw, with_weights_channel=hwc)
             d = getattr(syn, 'dataset', None)
             if d is None:
                 import katdal
                 d = katdal.open(path)
             got = np.asarray(d.weights[:])
         except Exception as e:   # noqa: BLE001
-            ctx.tag('v3-h5synth-open-failed')
-            ctx.advise(f'h5synth v3 file could not be built/opened/read ({type(e).__name__}: {e}); '
-                       'v3 weights checked through the object stub only')
-            return []
+            return [(f'a v3 file with weights {"present" if hw else "absent"} and weights_channel '
+                     f'{"present" if hwc else "absent"} could not be opened / read: {type(e).__name__}: {str(e)[:100]}',
+                     dict(kind='v3file', hw=hw, hwc=hwc))]
         with h5py.File(path, 'r') as f:
             g = f['Data']
             w = g['weights'][...] if 'weights' in g else None
@@ -1000,13 +1020,13 @@ def try_h5synth(ctx):
         T = got.shape[0]
         w = np.ones(got.shape, np.float32) if w is None else w[:T]
         wc = np.ones(got.shape[:2], np.float32) if wc is None else wc[:T]
-        ctx.tag('v3-h5synth-end-to-end')
+        ctx.tag('v3-h5synth-end-to-end' + ('-w' if hw else '-now') + ('-wc' if hwc else '-nowc'))
         if w.shape != got.shape:
             ctx.advise('h5synth v3 default selection is not the full array; end-to-end comparison skipped')
             return []
         want = w * wc[..., np.newaxis]
         if not np.allclose(got, want, rtol=RTOL):
-            return [('v3 file: d.weights[:] != weights * weights_channel', dict(kind='v3file'))]
+            return [(f'v3 file (weights {"present" if hw else "absent"}, weights_channel {"present" if hwc else "absent"}): d.weights[:] != weights * weights_channel with absent arrays read as one', dict(kind='v3file', hw=hw, hwc=hwc))]
         return []
     finally:
         shutil.rmtree(tmp, ignore_errors=True)
